@@ -445,7 +445,6 @@ func TestC09(t *testing.T) {
 	})
 }
 
-
 // ---- R3 over methods that share every type pair ----
 
 const c09SharedTypes = `package home
